@@ -170,3 +170,28 @@ def clash_modules(rng):
     if rng.chance(1, 2):
         mods.reverse()
     return mods
+
+
+def cast_programs():
+    """small programs around the bitcast operator `cast` and the conversion `as` in every operand position, well-typed or not
+    (they reach the diagnostics whose location is a cast expression)"""
+    tys = {"i32": "7", "u32": "8", "i64": "9", "u8": "1", "bool": "true", "usize": "3"}
+    out = []
+    for t1, v1 in tys.items():
+        for t2, v2 in tys.items():
+            decl = "\tvar a: %s = %s;\n\tvar b: %s = %s;\n" % (t1, v1, t2, v2)
+            bodies = [
+                "\tif cast a == cast b\n\t{\n\t\ta = a;\n\t}\n",
+                "\tif cast a == b\n\t{\n\t\ta = a;\n\t}\n",
+                "\tif a == cast b\n\t{\n\t\ta = a;\n\t}\n",
+                "\tvar c = cast a;\n",
+                "\tvar c: %s = cast a;\n" % t2,
+                "\tvar c: %s = cast a + b;\n" % t2,
+                "\tvar c: %s = cast (a as %s);\n" % (t2, t2),
+                "\tvar c = cast a + cast b;\n",
+                "\tb = cast a;\n",
+                "\tvar c: %s = (cast a) as %s;\n" % (t2, t2),
+            ]
+            for body in bodies:
+                out.append("fn main()\n{\n" + decl + body + "}\n")
+    return out
